@@ -31,6 +31,8 @@ Every rule then sees the same tree for
 
     x: T = e                   ->  x = e                 (locals and module variables; class-level field declarations stay)
 
+    NAME = "literal" (module level, bound once)  ->  every read of NAME in the module is the literal
+
 Positions of the original nodes are kept, so reports still point at the source line.  `tools/equiv_probe.py`
 applies the inverse rewrites to every module and checks that every rule stays silent.
 """
@@ -409,7 +411,43 @@ def package_signatures(trees: Sequence[ast.Module]) -> Dict[str, List[str]]:
     return {k: v for k, v in seen.items() if k not in dup}
 
 
+def _inline_module_constants(tree: ast.Module) -> None:
+    """`NAME = <string literal>` at module level, bound nowhere else in the module: every read of NAME in the module
+    is the literal (strings only: they are what rules match on - keys, strategies, feature names)"""
+    stores: Dict[str, int] = {}
+    for n in ast.walk(tree):
+        if isinstance(n, ast.Name) and isinstance(n.ctx, (ast.Store, ast.Del)):
+            stores[n.id] = stores.get(n.id, 0) + 1
+        elif isinstance(n, ast.arg):
+            stores[n.arg] = stores.get(n.arg, 0) + 1
+        elif isinstance(n, (ast.Global, ast.Nonlocal)):
+            for name in n.names:
+                stores[name] = stores.get(name, 0) + 2
+        elif isinstance(n, (ast.Import, ast.ImportFrom)):
+            for a in n.names:
+                nm = (a.asname or a.name).split(".")[0]
+                stores[nm] = stores.get(nm, 0) + 1
+        elif isinstance(n, (ast.FunctionDef, ast.AsyncFunctionDef, ast.ClassDef)):
+            stores[n.name] = stores.get(n.name, 0) + 1
+    consts: Dict[str, ast.Constant] = {}
+    for st in tree.body:
+        if isinstance(st, ast.Assign) and len(st.targets) == 1 and isinstance(st.targets[0], ast.Name) and isinstance(st.value, ast.Constant) and isinstance(st.value.value, str):
+            if stores.get(st.targets[0].id) == 1:
+                consts[st.targets[0].id] = st.value
+    if not consts:
+        return
+
+    class Sub(ast.NodeTransformer):
+        def visit_Name(self, node: ast.Name):
+            if isinstance(node.ctx, ast.Load) and node.id in consts:
+                return ast.copy_location(ast.Constant(value=consts[node.id].value), node)
+            return node
+
+    Sub().visit(tree)
+
+
 def canonicalise(tree: ast.Module, signatures: Dict[str, List[str]]) -> ast.Module:
+    _inline_module_constants(tree)
     canon = Canon(signatures)
     canon.shadowed = {n.id for n in ast.walk(tree) if isinstance(n, ast.Name) and isinstance(n.ctx, ast.Store)} | {a.arg for a in ast.walk(tree) if isinstance(a, ast.arg)}
     tree = canon.visit(tree)
